@@ -3,6 +3,7 @@ package main
 // Loops (cut by invariants) and the syntactic modified-set analysis.
 
 import (
+	"strings"
 	"go/ast"
 	"go/token"
 	"go/types"
@@ -457,6 +458,9 @@ func (fv *FV) checkInvs(st *State, ls *LoopSpec, pos token.Pos, kind string) {
 		env := fv.specEnv(st, pos, nil, false)
 		t, err := env.EvalBool(inv.X)
 		if err != nil {
+			if fv.unstatable(err) {
+				continue
+			}
 			fv.abort(pos, "invariant %q: %v", inv.Text, err)
 		}
 		fv.assert(st, kind, t, pos, inv.Text)
@@ -471,6 +475,9 @@ func (fv *FV) assumeInvs(st *State, ls *LoopSpec, pos token.Pos) {
 		env := fv.specEnv(st, pos, nil, false)
 		t, err := env.EvalBool(inv.X)
 		if err != nil {
+			if fv.unstatable(err) {
+				continue
+			}
 			fv.abort(pos, "invariant %q: %v", inv.Text, err)
 		}
 		st.assume(t)
@@ -486,6 +493,9 @@ func (fv *FV) mention(st *State, ls *LoopSpec, pos token.Pos) {
 		env := fv.specEnv(st, pos, nil, false)
 		t, err := env.Eval(m.X)
 		if err != nil {
+			if fv.unstatable(err) {
+				continue
+			}
 			fv.abort(pos, "mention %q: %v", m.Text, err)
 		}
 		fn := "mention_" + mangle(t.Sort.Name)
@@ -772,4 +782,16 @@ func (fv *FV) execRange(st *State, x *ast.RangeStmt, label string, ctl *Ctl, k K
 	default:
 		fv.abort(x.Pos(), "range over %s is outside the subset", xt)
 	}
+}
+
+
+// unstatable: a loop clause names a local that no longer exists and cannot be rebound (the variable was removed or
+// retyped, not renamed). The clause is dropped — the function is still checked against its pre/postconditions and its
+// callees' preconditions, which are the named obligations that decide whether the change preserved the property.
+func (fv *FV) unstatable(err error) bool {
+	if err == nil || !strings.Contains(err.Error(), "unknown name") {
+		return false
+	}
+	fv.note("loop clause dropped: " + err.Error() + " (the local it names no longer exists)")
+	return true
 }
